@@ -278,3 +278,119 @@ fn segid_rule<const N: usize>() {
 fn c01_segid_rule_n3() {
     segid_rule::<3>()
 }
+
+// ------------------------------------------------------------------ C11: tamper detection
+/// as `mac_stub`, additionally injective: different inputs give different MACs (a 48-bit MAC is
+/// not literally collision-free; "any changed bit is detected" is decided modulo MAC collisions)
+fn mac_stub_inj(beta: u16, ts: u32, exp: u8, ing: u16, eg: u16, key: &ForwardingKey) -> [u8; 6] {
+    unsafe {
+        let inp = (beta, ts, exp, ing, eg, key[0]);
+        let mut i = 0;
+        while i < TBL_N {
+            if TBL_IN[i] == inp {
+                return TBL_OUT[i];
+            }
+            i += 1;
+        }
+        let out: [u8; 6] = kani::any();
+        kani::assume(out != [0u8; 6]);
+        let mut i = 0;
+        while i < K {
+            if i < TBL_N {
+                kani::assume(TBL_OUT[i] != out);
+            }
+            i += 1;
+        }
+        assert!(TBL_N < K, "MAC table of the harness too small");
+        TBL_IN[TBL_N] = inp;
+        TBL_OUT[TBL_N] = out;
+        TBL_N += 1;
+        out
+    }
+}
+
+/// Authentic 2-hop path in construction direction; one symbolic bit of the authenticated bytes of
+/// hop field `t` (ExpTime, ConsIngress, ConsEgress, MAC), of the segment timestamp or of the SegID
+/// is flipped before the walk: verification fails at the AS owning hop `t` or earlier.
+fn tamper_n2() {
+    const N: usize = 2;
+    let ifs: [[u16; 2]; N] = kani::any();
+    let exps: [u8; N] = kani::any();
+    let ts: u32 = kani::any();
+    let sid: u16 = kani::any();
+    let mut seg = UnsignedPathSegment::new(ts, sid, Vec::new());
+    let mut i = 0;
+    while i < N {
+        seg.add_unsigned_entry(mk_entry(i, ifs[i][0], ifs[i][1], exps[i]), &key_of(i));
+        i += 1;
+    }
+    let mut buf = [0u8; 4 + 8 + 12 * N];
+    let meta: u32 = (N as u32) << 12;
+    buf[0..4].copy_from_slice(&meta.to_be_bytes());
+    buf[4] = 1; // construction direction
+    buf[6..8].copy_from_slice(&sid.to_be_bytes());
+    buf[8..12].copy_from_slice(&ts.to_be_bytes());
+    let mut t = 0;
+    while t < N {
+        let hf = &seg.as_entries[t].hop_entry.hop_field;
+        let o = 12 + 12 * t;
+        buf[o + 1] = hf.expiration_units;
+        buf[o + 2..o + 4].copy_from_slice(&hf.cons_ingress.to_be_bytes());
+        buf[o + 4..o + 6].copy_from_slice(&hf.cons_egress.to_be_bytes());
+        buf[o + 6..o + 12].copy_from_slice(&hf.mac.0);
+        t += 1;
+    }
+    // which byte, which bit: SegID (6,7), timestamp (8..12), or bytes 1..12 of hop field `owner`
+    let what: u8 = kani::any();
+    let bit: u8 = kani::any();
+    kani::assume(bit < 8);
+    let owner: usize = kani::any();
+    kani::assume(owner < N);
+    let pos = match what % 3 {
+        0 => 6 + (kani::any::<u8>() % 2) as usize,
+        1 => 8 + (kani::any::<u8>() % 4) as usize,
+        _ => 12 + 12 * owner + 1 + (kani::any::<u8>() % 11) as usize,
+    };
+    let last_allowed = if what % 3 == 2 { owner } else { 0 };
+    buf[pos] ^= 1 << bit;
+    let Ok((p, _)) = StandardPathView::try_from_mut_slice(&mut buf[..]) else {
+        return;
+    };
+    // walk until a hop rejects; it must happen at or before `last_allowed`
+    let mut t = 0;
+    while t < N {
+        let key = key_of(t);
+        let r = p.advance_ingress_with_validator(HopMacValidator { key }, t == 0);
+        let out = match r {
+            Ok(IngressValidateResult::Ok(o)) => o,
+            _ => {
+                kani::cover!(t == 1, "tampering detected at the second AS");
+                assert!(t <= last_allowed, "tampering detected only after the AS owning the changed hop field");
+                std::mem::forget(seg);
+                return;
+            }
+        };
+        if let IngressAdvanceAction::ContinueEgress { .. } = out.action {
+            match p.advance_egress_with_validator(HopMacValidator { key }) {
+                Ok(EgressValidateResult::Ok(_)) => {}
+                _ => {
+                    assert!(t <= last_allowed, "tampering detected only after the AS owning the changed hop field");
+                    std::mem::forget(seg);
+                    return;
+                }
+            }
+        }
+        assert!(t < last_allowed, "AS accepted a hop field, timestamp or chaining value with a flipped authenticated bit");
+        t += 1;
+    }
+    assert!(false, "tampered path verified at every hop");
+}
+
+// verif: prop=C11 tier=thorough cap=3400 mem=24 replay=model bound="authentic 2-entry segment in construction direction (all field values); one flipped bit in SegID, timestamp or any authenticated byte of either hop field" fns="AsEntry::update_macs,StandardPathView::advance_*_with_validator,HopMacValidator::validate_hop" stubs="calculate_hop_mac -> memoised nondeterministic injective function (collision-free MAC assumed); SegmentInfo::new -> no protobuf"
+#[kani::proof]
+#[kani::unwind(14)]
+#[kani::stub(crate::dataplane_path::standard::mac::algo::calculate_hop_mac, mac_stub_inj)]
+#[kani::stub(crate::segment::SegmentInfo::new, info_stub)]
+fn c11_tamper_n2() {
+    tamper_n2()
+}
